@@ -644,6 +644,104 @@ pub fn after_refusal(tier: &str) -> (u64, Vec<Viol>) {
     (n, out)
 }
 
+/// Collision families of hierarchy calls: cells that differ from one another in exactly one component
+/// (face, quintant, leading / trailing / middle curve digit), at several resolutions, each with parent
+/// calls to several targets and child expansions; ALL ordered pairs of calls run back to back on one
+/// fresh thread and every result is compared with the reference hierarchy. A per-thread or process-wide
+/// memo whose key drops or truncates any one component makes two of these calls collide.
+pub fn collision_calls(r: i32) -> Vec<Call> {
+    let levels = (r - 1) as u32;
+    let base_s: u64 = 0x2_4924_9249_2492 & ((1u64 << (2 * levels)) - 1).max(1);
+    let mut cells: Vec<u64> = Vec::new();
+    for face in [2u64, 9] {
+        for quintant in [1u64, 3] {
+            let mut ss = vec![base_s, base_s ^ 1, base_s ^ (1u64 << (2 * (levels - 1))), base_s ^ (2u64 << (2 * (levels - 1)))];
+            if 2 * levels > 33 {
+                ss.push(base_s ^ (1u64 << 32));
+            }
+            if 2 * levels > 24 {
+                ss.push(base_s ^ (1u64 << 24));
+            }
+            for sv in ss {
+                if let Some(c) = rc::encode(rc::Tuple { face, quintant, s: sv, res: r }) {
+                    cells.push(c);
+                }
+            }
+        }
+    }
+    cells.sort_unstable();
+    cells.dedup();
+    let mut calls = Vec::new();
+    for &c in &cells {
+        for t in [2, r - 12, r - 13, r - 1, 0] {
+            if t >= -1 && t < r {
+                calls.push(Call::Parent(c, Some(t)));
+            }
+        }
+        calls.push(Call::Parent(c, None));
+        if r < 29 {
+            calls.push(Call::Children(c, Some(r + 1)));
+            calls.push(Call::Children(c, None));
+        }
+        if r + 2 <= 29 {
+            calls.push(Call::Children(c, Some(r + 2)));
+        }
+    }
+    calls
+}
+
+pub fn collision_circuits(tier: &str, class: &str) -> (u64, Vec<Viol>) {
+    let ress: &[i32] = if tier == "quick" { &[14, 28, 29] } else { &[5, 9, 14, 17, 20, 25, 27, 28, 29] };
+    let res: Vec<(u64, Vec<Viol>)> = ress
+        .par_iter()
+        .map(|&r| {
+            let calls = collision_calls(r);
+            let class = class.to_string();
+            std::thread::scope(|sc| {
+                sc.spawn(move || {
+                    let want: Vec<Vec<u64>> = calls
+                        .iter()
+                        .map(|c| {
+                            let mut w = c.expect();
+                            w.sort_unstable();
+                            w
+                        })
+                        .collect();
+                    let mut n = 0u64;
+                    for a in 0..calls.len() {
+                        for b in 0..calls.len() {
+                            let _ = calls[a].run();
+                            let mut got = calls[b].run().unwrap_or_default();
+                            got.sort_unstable();
+                            n += 1;
+                            if got != want[b] {
+                                return (
+                                    n,
+                                    vec![viol(
+                                        &class,
+                                        format!("{:?} right after {:?} on the same thread returned {:?}; the hierarchy dictates {:?}", calls[b], calls[a], got.iter().take(6).map(|&x| subj::hex(x)).collect::<Vec<_>>(), want[b].iter().take(6).map(|&x| subj::hex(x)).collect::<Vec<_>>()),
+                                        json!({"kind": "call-pair", "first": calls[a].to_json(), "second": calls[b].to_json(), "class": class}),
+                                    )],
+                                );
+                            }
+                        }
+                    }
+                    (n, vec![])
+                })
+                .join()
+                .unwrap()
+            })
+        })
+        .collect();
+    let mut n = 0;
+    let mut out = Vec::new();
+    for (c, v) in res {
+        n += c;
+        out.extend(v);
+    }
+    (n, out)
+}
+
 /// replay of the cases this module records
 pub fn replay(case: &serde_json::Value) -> Option<Vec<Viol>> {
     let cells = || case["cells"].as_array().map(|a| a.iter().filter_map(|x| x.as_str().and_then(|s| u64::from_str_radix(s, 16).ok())).collect::<Vec<u64>>());
@@ -653,6 +751,28 @@ pub fn replay(case: &serde_json::Value) -> Option<Vec<Viol>> {
             let v = Call::from_json(&case["call"])?;
             // fresh thread: the recorded pair is the whole history
             Some(std::thread::scope(|sc| sc.spawn(move || refusal_then(&e, &v).into_iter().collect::<Vec<_>>()).join().unwrap()))
+        }
+        "call-pair" => {
+            let a = Call::from_json(&case["first"])?;
+            let b = Call::from_json(&case["second"])?;
+            let class = case["class"].as_str().unwrap_or("C07/after-call").to_string();
+            let case2 = case.clone();
+            Some(std::thread::scope(|sc| {
+                sc.spawn(move || {
+                    let _ = a.run();
+                    let mut got = b.run().unwrap_or_default();
+                    got.sort_unstable();
+                    let mut want = b.expect();
+                    want.sort_unstable();
+                    if got != want {
+                        vec![viol(&class, format!("{:?} right after {:?} returned {} ids that differ from the hierarchy", b, a, got.len()), case2)]
+                    } else {
+                        vec![]
+                    }
+                })
+                .join()
+                .unwrap()
+            }))
         }
         "children" => {
             let c = u64::from_str_radix(case["id"].as_str()?, 16).ok()?;
